@@ -48,3 +48,11 @@ Theorem C16_consistent_one_pass_refuted :
              snd (pass Extended Consistent [] out) <> 0.
 Proof. exact consistent_one_pass_refuted. Qed.
 Print Assumptions C16_consistent_one_pass_refuted.
+
+(** consistent: all the fixes of one crawl re-case to one and the same case -- every token of the
+    result is the original or the original under that single case [L]. *)
+Theorem C16_consistent_single_case : forall n ig ts m out k,
+  pass_from n Consistent ig m ts = (out, k) ->
+  exists L, Forall2 (recased L) ts out.
+Proof. exact consistent_single_case. Qed.
+Print Assumptions C16_consistent_single_case.
